@@ -12,13 +12,14 @@ membership, tops-as-minima and the component partition (union-find) are recomput
 import collections
 import concurrent.futures
 import itertools
+import json
 import os
 import re
 
 from lib import core
 
 DRIVER = "drv_grid"
-LEAN_TARGETS = ["OmplModel.Props.C13", DRIVER, "drv_discretization"]
+LEAN_TARGETS = ["OmplModel.Props.C13", DRIVER, "drv_discretization", "drv_kpiece"]
 CMPS = ["less", "greater", "div4", "mod16"]
 EVS = ["none", "lo", "hi"]
 FAR = 1 << 30
@@ -1085,6 +1086,427 @@ def judge_disc(ck, hbin, script, tag, pre=None):
     return True
 
 
+# ================================================================================== engine 3: KPIECE1
+KP_DRIVER = "drv_kpiece"
+STATUS_NAME = {"Exact solution": "EXACT_SOLUTION", "Approximate solution": "APPROXIMATE_SOLUTION", "Timeout": "TIMEOUT",
+               "Invalid start": "INVALID_START"}
+
+
+def gen_kpiece(rng):
+    """one planning problem on an R^n box environment + planner parameters + the three seeds + an iteration budget."""
+    n = rng.choice([2, 2, 3])
+    lo = [rng.choice([0.0, -1.0, 0.0]) for _ in range(n)]
+    hi = [lo[i] + rng.choice([1.0, 2.0, 1.0]) for i in range(n)]
+    boxes = []
+    for _ in range(rng.choice([0, 1, 2, 3, 4])):
+        c = [rng.uniform(lo[i], hi[i]) for i in range(n)]
+        h = [rng.uniform(0.05, 0.3) * (hi[i] - lo[i]) for i in range(n)]
+        boxes.append([c[i] - h[i] for i in range(n)] + [c[i] + h[i] for i in range(n)])
+    pt = lambda: [rng.uniform(lo[i], hi[i]) for i in range(n)]
+    starts = [pt() for _ in range(rng.choice([1, 1, 2, 3, 4]))]
+    if rng.chance(1, 6):
+        starts[rng.below(len(starts))][0] = hi[0] + 0.5       # out of bounds
+    if boxes and rng.chance(1, 4):
+        b = rng.choice(boxes)
+        starts.append([(b[i] + b[n + i]) / 2 for i in range(n)])   # inside an obstacle
+    if rng.chance(1, 25):
+        starts = [[hi[0] + 1.0] + [lo[i] for i in range(1, n)]]     # no valid start at all
+    prob = {"n": n, "lo": lo, "hi": hi, "boxes": boxes, "starts": starts, "goal": pt(),
+            "res": rng.choice([0.01, 0.02, 0.05, 0.1]), "thr": rng.choice([0.05, 0.1, 0.2, 0.02]),
+            "range": rng.choice([0.0, 0.1, 0.3, 0.6, 2.0]), "goalbias": rng.choice([0.05, 0.2, 0.5, 0.0, 1.0]),
+            "bf": rng.choice([0.9, 0.5, 1.0, 0.1]), "fsf": rng.choice([0.5, 1.0, 0.1, 0.9]),
+            "mvf": rng.choice([0.2, 0.05, 0.5, 0.9, 1.0]), "seeds": [rng.below(1 << 30) + 1 for _ in range(3)],
+            "iters": rng.choice([0, 3, 10, 25, 60, 120])}
+    return prob
+
+
+def kpiece_script(p):
+    b = core.f2bits
+    n = p["n"]
+    L = ["kpiece", "dim %d" % n, "bounds " + " ".join(map(b, p["lo"] + p["hi"])),
+         ("boxes %d " % len(p["boxes"]) + " ".join(b(v) for bx in p["boxes"] for v in bx)).strip(), "res " + b(p["res"])]
+    for s_ in p["starts"]:
+        L.append("start " + " ".join(map(b, s_)))
+    L += ["goal " + " ".join(map(b, p["goal"])), "thr " + b(p["thr"]), "range " + b(p["range"]), "goalbias " + b(p["goalbias"]),
+          "bf " + b(p["bf"]), "fsf " + b(p["fsf"]), "mvf " + b(p["mvf"]), "seeds %d %d %d" % tuple(p["seeds"]),
+          "iters %d" % p["iters"], "go"]
+    return L
+
+
+def kp_parse(out):
+    """harness output -> dict(cfg, starts, sts, recs, final, pd)"""
+    R = {"starts": [], "sts": [], "recs": [], "final": None, "cfg": None, "pd": None}
+    for ln in out:
+        if ln.startswith("cfg "):
+            R["cfg"] = dict(t.split("=") for t in ln.split()[1:])
+        elif ln.startswith("start "):
+            R["starts"].append(dict(t.split("=") for t in ln.split()[1:]))
+        elif ln.startswith("st "):
+            R["sts"].append(ln)
+        elif ln.startswith("rec "):
+            R["recs"].append(dict(t.split("=") for t in ln.split()[1:]))
+        elif ln.startswith("final "):
+            m = re.fullmatch(r"final status=(.*?) nsol=(\d+) approx=(\d) dif=(\S+) broke=(\d) evals=(\d+) path=(\S+)", ln)
+            if m:
+                R["final"] = {"status": m.group(1), "nsol": int(m.group(2)), "approx": int(m.group(3)), "dif": m.group(4),
+                              "broke": int(m.group(5)), "evals": int(m.group(6)), "path": m.group(7)}
+        elif ln.startswith("pd "):
+            R["pd"] = ln
+    return R
+
+
+def kp_model_script(p, R):
+    b = core.f2bits
+    L = ["kpiece pdim=%s bf=%s gb=%s fsf=%s mvf=%s thr=%s seedp=%d seedd=%d"
+         % (R["cfg"]["pdim"], b(p["bf"]), b(p["goalbias"]), b(p["fsf"]), b(p["mvf"]), b(p["thr"]), p["seeds"][0], p["seeds"][1])]
+    for st in R["starts"]:
+        L.append("start %s %s %s" % (st["state"], st["ok"], st["coord"]))
+    L.append("begin")
+    for r in R["recs"]:
+        L.append("it x=%s exs=%s cm=%s frac=%s xs=%s dist=%s coord=%s" % (r["x"], r["exs"], r["cm"], r["frac"], r["xs"], r["dist"], r["coord"]))
+    L.append("fin")
+    return L
+
+
+def kp_lines(R):
+    """the implementation's run in the shape of the model driver's output lines"""
+    f = R["final"]
+    sts = R["sts"]
+    if f is None or not sts:
+        return None
+    final_dump = sts[-1]
+    name = STATUS_NAME.get(f["status"], f["status"])
+    fin = "final status=%s added=%d approx=%d dif=%s path=%s | %s" % (
+        name, f["nsol"], f["approx"], (f["dif"] if f["approx"] else (core.f2bits(0.0) if f["nsol"] else "-")) if f["nsol"] else "-",
+        f["path"], final_dump)
+    if f["evals"] == 0:
+        return ["invalid-start " + final_dump, fin]
+    per = sts[:-1]            # one per ptc evaluation
+    lines = [per[0]]
+    for j, r in enumerate(R["recs"]):
+        after = per[j + 1] if j + 1 < len(per) else final_dump
+        lines.append("it sel=%s tag=%s keep=%s | %s" % (r["ex"], r["tag"], r["keep"], after))
+    lines.append(fin)
+    return lines
+
+
+def kp_state(sbits):
+    return [core.bits2f(z) for z in sbits.split(",")]
+
+
+def kp_tree(st_line):
+    sec = st_line[3:].split(" | ")
+    t = sec[3].split()
+    nodes = []
+    for tok in t[2:]:
+        par, sb = tok.split(":")
+        nodes.append((int(par), sb))
+    return sec, nodes
+
+
+def kpiece_oracle(p, R, stats=None):
+    """tree / discretization / report properties recomputed from the environment and the implementation's output only."""
+    n = p["n"]
+    lo, hi = p["lo"], p["hi"]
+    ext = 0.0
+    for i in range(n):
+        d_ = hi[i] - lo[i]
+        ext += d_ * d_
+    seg = (ext ** 0.5) * p["res"]
+    import math
+
+    def valid(v):
+        for bx in p["boxes"]:
+            if all(bx[i] <= v[i] <= bx[n + i] for i in range(n)):
+                return False
+        return True
+
+    def inb(v):
+        return all(lo[i] <= v[i] <= hi[i] for i in range(n))
+
+    def dist(a, b_):
+        acc = 0.0
+        for i in range(n):
+            df = a[i] - b_[i]
+            acc += df * df
+        return math.sqrt(acc)
+
+    def interp(a, b_, t):
+        return [a[i] + (b_[i] - a[i]) * t for i in range(n)]
+
+    def check_motion(a, b_):
+        """DiscreteMotionValidator::checkMotion(a, b, lastValid) recomputed: (result, lastValid.second, state left in b)"""
+        nd = int(math.ceil(dist(a, b_) / seg))
+        for j in range(1, nd):
+            if not valid(interp(a, b_, float(j) / float(nd))):
+                fr = float(j - 1) / float(nd)
+                return False, fr, interp(a, b_, fr)
+        if not valid(b_):
+            if nd == 0:
+                return False, float("-inf"), None
+            fr = float(nd - 1) / float(nd)
+            return False, fr, interp(a, b_, fr)
+        return True, 0.0, b_
+
+    pdim = int(R["cfg"]["pdim"])
+    cs = [(hi[i] - lo[i]) / 20.0 for i in range(pdim)]
+
+    def coord(v):
+        return tuple(int(math.floor(v[i] / cs[i])) for i in range(pdim))
+
+    f = R["final"]
+    if f is None:
+        return (0, "the planner run did not finish (crash or sanitizer report)")
+    # ---- starts
+    okstarts = []
+    for k, st in enumerate(R["starts"]):
+        v = kp_state(st["state"])
+        ok = inb(v) and valid(v)
+        if ok != (st["ok"] == "1"):
+            return (0, "start %d: satisfiesBounds && isValid answered %s, recomputed %s" % (k, st["ok"], ok))
+        if ok:
+            okstarts.append(st["state"])
+    if not okstarts:
+        if STATUS_NAME.get(f["status"]) != "INVALID_START" or f["nsol"] != 0:
+            return (0, "no valid start, yet status %s with %d solutions" % (f["status"], f["nsol"]))
+        return None
+    if f["evals"] == 0:
+        return (0, "valid starts exist but the loop never evaluated the termination condition (status %s)" % f["status"])
+    sts = R["sts"]
+    per = sts[:-1]
+    seq = [per[0]] + [(per[j + 1] if j + 1 < len(per) else sts[-1]) for j in range(len(R["recs"]))]
+    if len(R["recs"]) != (f["evals"] - 1 if not f["broke"] else f["evals"]):
+        return (0, "%d iteration records for %d evaluations (broke=%d)" % (len(R["recs"]), f["evals"], f["broke"]))
+    prev_nodes = None
+    prev_cells = None
+    for j, line in enumerate(seq):
+        sec, nodes = kp_tree(line)
+        try:
+            D = parse_ddump(" | ".join(sec[:3]))
+        except Exception as e:   # noqa
+            return (j, "unreadable state dump: %s" % e)
+        if j == 0:
+            if [nd[1] for nd in nodes] != okstarts or any(nd[0] != -1 for nd in nodes):
+                return (0, "the tree starts with %s, the valid start states are %s" % (nodes, okstarts))
+        else:
+            r = R["recs"][j - 1]
+            ex = int(r["ex"])
+            if not (0 <= ex < len(prev_nodes)):
+                return (j, "iteration %d expanded from motion %d, the tree has %d motions" % (j, ex, len(prev_nodes)))
+            a = kp_state(prev_nodes[ex][1])
+            x = kp_state(r["x"])
+            if stats is not None:
+                stats["kp:iterations"] += 1
+                stats["kp:tag:" + r["tag"]] += 1
+            cm, fr, xs = check_motion(a, x)
+            keep = cm or fr > p["mvf"]
+            if stats is not None:
+                stats["kp:motion:" + ("valid" if cm else ("partial-kept" if keep else "rejected"))] += 1
+            if keep:
+                want = prev_nodes + [(ex, ",".join(core.f2bits(z) for z in xs))]
+                if nodes != want:
+                    got = nodes[len(prev_nodes):]
+                    return (j, "iteration %d: motion from %d towards the sample is %s (valid fraction %r, minValidPathFraction %r): the "
+                               "tree must grow by (%d, %s), it grew by %s"
+                            % (j, ex, "fully valid" if cm else "valid up to lastValid", fr, p["mvf"], ex, [repr(z) for z in xs],
+                               [(g_[0], [repr(z) for z in kp_state(g_[1])]) for g_ in got]))
+            elif nodes != prev_nodes:
+                got = nodes[len(prev_nodes):]
+                return (j, "iteration %d: motion from %d is invalid with valid fraction %r <= minValidPathFraction %r, yet the tree grew by %s"
+                        % (j, ex, fr, p["mvf"], [(g_[0], [repr(z) for z in kp_state(g_[1])]) for g_ in got]))
+        # ---- discretization: every motion in exactly the cell of its coordinate, no empty cell, grid invariants
+        want_cells = {}
+        for mid, nd in enumerate(nodes):
+            want_cells.setdefault(coord(kp_state(nd[1])), []).append(mid)
+        got_cells = {}
+        for cid, c in D["cells"].items():
+            if c["x"] in got_cells:
+                return (j, "two cells at coordinate %s" % (c["x"],))
+            got_cells[c["x"]] = c["motions"]
+        if got_cells != want_cells:
+            return (j, "after iteration %d the cells hold %s, the motions by projection coordinate are %s" % (j, sorted(got_cells.items()), sorted(want_cells.items())))
+        if D["size"] != len(nodes):
+            return (j, "size_=%d, %d motions in the tree" % (D["size"], len(nodes)))
+        ecell = None
+        if j > 0:
+            ecell = coord(kp_state(prev_nodes[int(R["recs"][j - 1]["ex"])][1]))
+        last_broke = (j == len(seq) - 1 and f["broke"] == 1)
+        for cid, c in D["cells"].items():
+            cnt = sum(1 for y in nb_coords(c["x"]) if y in got_cells)
+            if c["nbrs"] != cnt or c["border"] != (cnt < 2 * pdim):
+                return (j, "cell %d at %s: neighbors=%d border=%s, definition gives %d and %s" % (cid, c["x"], c["nbrs"], c["border"], cnt, cnt < 2 * pdim))
+            if c["cov"] != float(len(c["motions"])):
+                return (j, "cell %d: coverage %g with %d motions" % (cid, c["cov"], len(c["motions"])))
+            fresh = (c["x"] == ecell and not last_broke)
+            sels = [c["sel"]] if fresh else range(c["sel"], 0, -1)
+            okimp = False
+            for s_ in sels:
+                den = (float(cnt + 1) * c["cov"]) * float(s_)
+                if den != 0.0 and c["score"] / den == c["imp"]:
+                    okimp = True
+                    break
+            if not okimp:
+                return (j, "cell %d at %s: importance %r is not score/((neighbors+1)*coverage*selections) = %r/((%d+1)*%g*s) for %s"
+                        % (cid, c["x"], c["imp"], c["score"], cnt, c["cov"],
+                           "s = %d (updateCell(ecell) ends the iteration)" % c["sel"] if fresh else "any s <= %d" % c["sel"]))
+            if fresh and prev_cells is not None:
+                old = [v for v in prev_cells.values() if v["x"] == c["x"]]
+                r = R["recs"][j - 1]
+                if old and old[0]["score"] >= EPS and r["keep"] == "0":
+                    if c["score"] != old[0]["score"] * p["fsf"]:
+                        return (j, "failed expansion from cell %d: score %r, expected %r * %r" % (cid, c["score"], old[0]["score"], p["fsf"]))
+        I, E = D["I"], D["E"]
+        if sorted(I + E) != sorted(D["cells"]) or any(not D["cells"][c]["border"] for c in E) or any(D["cells"][c]["border"] for c in I):
+            return (j, "queues I=%s E=%s do not split the cells by border flag" % (I, E))
+        for name, arr in (("internal", I), ("external", E)):
+            for cid in arr:
+                if D["cells"][cid]["imp"] > D["cells"][arr[0]]["imp"]:
+                    return (j, "%s queue: cell %d is at the top although cell %d has a larger importance" % (name, arr[0], cid))
+        if not E:
+            return (j, "selectMotion would meet an empty external queue: no border cell")
+        prev_nodes, prev_cells = nodes, D["cells"]
+    # ---- the report
+    nodes = prev_nodes
+    g = p["goal"]
+    gd = [dist(kp_state(nd[1]), g) for nd in nodes]
+    added = [i for i, nd in enumerate(nodes) if nd[0] >= 0]
+    name = STATUS_NAME.get(f["status"], f["status"])
+    if not added:
+        if name != "TIMEOUT" or f["nsol"] != 0:
+            return (len(seq), "no motion was added, yet status %s with %d solutions" % (f["status"], f["nsol"]))
+        return None
+    solved = [i for i in added if gd[i] < p["thr"]]
+    if solved:
+        tgt, wname, wapprox = solved[0], "EXACT_SOLUTION", 0
+        if solved[0] != len(nodes) - 1:
+            return (len(seq), "motion %d satisfies the goal but the loop went on" % solved[0])
+    else:
+        best = min(gd[i] for i in added)
+        tgt, wname, wapprox = [i for i in added if gd[i] == best][0], "APPROXIMATE_SOLUTION", 1
+    chain = []
+    i = tgt
+    while i >= 0:
+        chain.append(nodes[i][1])
+        i = nodes[i][0]
+    wpath = ";".join(reversed(chain))
+    if name != wname or f["nsol"] != 1 or f["approx"] != wapprox or f["path"] != wpath:
+        return (len(seq), "report: status %s approx=%d path of %d states; expected %s approx=%d and the tree path to motion %d (%d states)"
+                % (f["status"], f["approx"], len(f["path"].split(";")), wname, wapprox, tgt, len(chain)))
+    if wapprox and core.bits2f(f["dif"]) != gd[tgt]:
+        return (len(seq), "reported difference %r, the goal distance of the last path state is %r" % (core.bits2f(f["dif"]), gd[tgt]))
+    if stats is not None:
+        stats["kp:status:" + wname] += 1
+    return None
+
+
+def build_kpiece(ck):
+    return ck.build_harness("kpiece", ["kpiece.cpp"], link_ompl=True, extra=HARNESS_EXTRA)
+
+
+def run_kpiece(ck, hbin, p):
+    out, rc, err = ck.run_bin(hbin, kpiece_script(p))
+    out = out or []
+    R = kp_parse(out)
+    model = None
+    if R["cfg"] is not None and R["final"] is not None:
+        model, rc2, err2 = ck.run_bin(ck.driver(KP_DRIVER), kp_model_script(p, R))
+        if rc2 != 0:
+            raise RuntimeError("model driver drv_kpiece failed (rc=%s): %s" % (rc2, (err2 or "")[-800:]))
+    return out, rc, err or "", R, model
+
+
+def kp_compare(R, model):
+    """-> None | (line index, impl line, model line)"""
+    impl = kp_lines(R)
+    if impl is None or model is None:
+        return (0, "<no run>", "<no run>")
+    m = list(model[len(R["starts"]):])      # drop the `ok` answers of the start lines
+    if m:
+        mm = re.match(r"final status=(\S+) same=(\d) unused=(\d+) (.*)$", m[-1])
+        if mm:
+            if mm.group(2) != "1":
+                return (len(m) - 1, "<replay>", "whole-run solve differs from the stepwise replay: " + m[-1][:200])
+            m[-1] = "final status=%s %s" % (mm.group(1), mm.group(4))
+    for i in range(max(len(impl), len(m))):
+        a = impl[i] if i < len(impl) else "<missing>"
+        b_ = m[i] if i < len(m) else "<missing>"
+        if a != b_:
+            return (i, a, b_)
+    return None
+
+
+def judge_kpiece(ck, hbin, p, tag, pre=None):
+    out, rc, err, R, model = pre if pre is not None else run_kpiece(ck, hbin, p)
+    ck.traces_validated += 1
+    stats = collections.Counter()
+    fail = None
+    if rc != 0 or R["final"] is None:
+        fail = (0, "harness exited with code %s: %s" % (rc, crash_site(err)))
+    else:
+        fail = kpiece_oracle(p, R, stats)
+    niter = len(R["recs"])
+    ck.case(("kpiece", json.dumps(p, sort_keys=True)), stats["kp:motion:partial-kept"] >= 1 and stats["kp:motion:rejected"] >= 1)
+    ck.count("kp:problems:" + tag)
+    ck.count("kp:dim:%d" % p["n"])
+    for k, v in stats.items():
+        ck.count(k, v)
+    ck.sample({"generator": "kpiece:" + tag, "problem": {k: p[k] for k in ("n", "iters", "mvf", "fsf", "goalbias", "bf", "seeds")},
+               "iterations": niter}, limit=12)
+    d = kp_compare(R, model) if fail is None else None
+    if fail is not None:
+        sig = ("kpiece", re.sub(r"-?\d+(\.\d+)?(e-?\d+)?", "N", fail[1])[:50])
+        seen = ck.__dict__.setdefault("_c13_sigs", set())
+        if sig in seen:
+            ck.count("failing-scripts:same-kind-as-reported")
+            return None
+        seen.add(sig)
+        # shrink: fewer iterations, fewer boxes, fewer starts
+        def fails(q):
+            o2, rc2, e2, R2, _m = run_kpiece(ck, hbin, q)
+            return rc2 != 0 or R2["final"] is None or kpiece_oracle(q, R2) is not None
+        q = dict(p)
+        lo_, hi_ = 0, q["iters"]
+        while lo_ < hi_:
+            mid = (lo_ + hi_) // 2
+            q2 = dict(q, iters=mid)
+            if fails(q2):
+                hi_ = mid
+            else:
+                lo_ = mid + 1
+        q["iters"] = lo_
+        for key in ("boxes", "starts"):
+            items = list(q[key])
+            k_ = 0
+            while k_ < len(items) and len(items) > (1 if key == "starts" else 0):
+                cand = items[:k_] + items[k_ + 1:]
+                if fails(dict(q, **{key: cand})):
+                    items = cand
+                else:
+                    k_ += 1
+            q[key] = items
+        o2, rc2, e2, R2, m2 = run_kpiece(ck, hbin, q)
+        f2 = kpiece_oracle(q, R2) if (rc2 == 0 and R2["final"] is not None) else (0, "harness exited with code %s: %s" % (rc2, crash_site(e2)))
+        what = (f2 or fail)[1]
+        ck.report({"engine": "kpiece", "what": re.sub(r"\d+", "N", what)[:160]}, script=["#kpiece-problem " + json.dumps(q)] + kpiece_script(q),
+                  expected=m2, observed=o2, engine="kpiece")
+        ck.log("property failure (KPIECE1): %s (%d iterations after shrinking)" % (what[:300], q["iters"]))
+        return False
+    if d is not None:
+        ck.disagreements += 1
+        seen = ck.__dict__.setdefault("_c13_dis", set())
+        if "kpiece" in seen:
+            ck.count("disagreeing-scripts:same-op-as-reported")
+            return None
+        seen.add("kpiece")
+        ck.report({"engine": "kpiece", "what": "model/implementation disagreement"},
+                  script=["#kpiece-problem " + json.dumps(p)] + kpiece_script(p), expected=[d[2]], observed=[d[1]],
+                  found_input=False, engine="kpiece",
+                  obligation="correspondence kpiece: KPIECE1.cpp vs OmplModel.Model.KPIECE1 (first differing line %d)" % d[0])
+        ck.log("KPIECE1: correspondence disagreement at line %d; the oracle holds on this run" % d[0])
+        return False
+    return True
+
+
 # ---------------------------------------------------------------------------------- the check
 HARNESS_EXTRA = ["-isystem", "/usr/include/eigen3"]
 
@@ -1280,6 +1702,7 @@ def corpus():
 def setup(ck):
     build(ck)
     build_disc(ck)
+    build_kpiece(ck)
 
 
 EXH_CFGS = [
@@ -1318,7 +1741,7 @@ def run(ck):
                        "discretization; the score is changed only right before updateCell(); importances are not NaN (the functor is "
                        "then a strict weak order)"]
     ck.lean_build(LEAN_TARGETS)
-    ck.audit(roots=["Drv.Grid", "Drv.Discretization"])
+    ck.audit(roots=["Drv.Grid", "Drv.Discretization", "Drv.KPIECE1"])
     if ck.tier == "thorough" and ck.lean_ok:
         ck.leanchecker(["OmplModel.Props.C13"])
     hbin = build(ck)
@@ -1374,10 +1797,50 @@ def run(ck):
                     break
                 if judge_disc(ck, dbin, script, tag, pre) is False:
                     bad += 1
+        # ---- engine 3: the real KPIECE1 against its model
+        kbin = build_kpiece(ck)
+        kjobs = []
+        cdir = os.path.join(core.VERIF, "corpus", "C13")
+        for fn in sorted(os.listdir(cdir)) if os.path.isdir(cdir) else []:
+            if fn.startswith("kpiece-") and fn.endswith(".json"):
+                kjobs.append((json.load(open(os.path.join(cdir, fn))), "corpus"))
+        for i in range(90 if quick else 900):
+            kjobs.append((gen_kpiece(ck.rng.fork("kpiece%d" % i)), "random"))
+        bad = 0
+        for a in range(0, len(kjobs), chunk):
+            if bad >= 3:
+                break
+            part = kjobs[a:a + chunk]
+            pres = list(ex.map(lambda j: run_kpiece(ck, kbin, j[0]), part))
+            for (p_, tag), pre in zip(part, pres):
+                if bad >= 3:
+                    break
+                if judge_kpiece(ck, kbin, p_, tag, pre) is False:
+                    bad += 1
     return 0
 
 
 def replay(ck, data):
+    if data["script"][0].startswith("#kpiece-problem "):
+        p = json.loads(data["script"][0][len("#kpiece-problem "):])
+        hbin = build_kpiece(ck)
+        ck.lean_build([KP_DRIVER])
+        out, rc, err, R, model = run_kpiece(ck, hbin, p)
+        for ln in out:
+            print(ln[:300])
+        if rc != 0 or R["final"] is None:
+            print("harness exit code %s: %s" % (rc, crash_site(err)))
+            return 1
+        fail = kpiece_oracle(p, R)
+        if fail:
+            print("PROPERTY FAILS at iteration %d: %s" % fail)
+            return 1
+        d = kp_compare(R, model)
+        if d is not None:
+            print("model and implementation disagree at line %d\n impl:  %s\n model: %s" % (d[0], d[1][:400], d[2][:400]))
+            return 1
+        print("no failure on the current tree")
+        return 0
     if data["script"][0].startswith("disc"):
         hbin = build_disc(ck)
         ck.lean_build([DISC_DRIVER])
